@@ -12,7 +12,8 @@ EVIDENCE = dict(
          "texts (word length x bytes per character x separator, <= 2 segments) and probe texts (ASCII prose with a break every "
          "10 bytes whose only sentence ends lie at the limit position + d1 and + d2, d1 in {-150,-100,-99,-50,-1,0,none}, d2 in "
          "{1,2,49,50,51,99,100,150,none}: just outside, at the edges of and inside the search windows) x the size configurations "
-         "{characters 200/257} + {tokens 200/231} x TokensPerChar {0.1, 0.25, 0.5, 1.0} (all 630 probes run, profiles sampled), and random "
+         "{characters 200/257} + {tokens 200/231} x TokensPerChar {0.1, 0.25, 0.5, 1.0} (all 630 probes run, profiles sampled), sweep texts whose byte length and character count differ by 1..15 around "
+         "the maximum (4752 cases, 1600 sampled in quick), and random "
          "profiles (all units, limits down to 1) go through SplitToSize, ChunkDocumentWithConfig and NewChunkerWithConfig().Chunk; "
          "(3) TLC-enumerated and random overlap configurations (3 chunks x strategy x size x bounds x PreserveWords x heading "
          "context) go through GenerateOverlap, ApplyOverlapToChunks and ChunkWithOverlapEnabled. Every call is one trace event "
@@ -30,6 +31,20 @@ NOTES = """Interpretation choices (soundness first):
   code counts bytes, which is never smaller; the extent of the piece in the original text is NOT used, because a chunker may
   legitimately replace "\n\n" between sentences by one space), tokens = characters div (1/TokensPerChar).  The bound is only asserted for units characters/tokens, a hard maximum
   >= 200 and texts in which every stretch without a 1-byte space/newline is < 50 bytes.
+* The size measure is ONE function: what "size in unit u" means is the library's own SizeCalculator.Calculate(text).  A piece is
+  judged twice for a hard character / token maximum (same promise: maximum >= 200, a break at least every 50 bytes): by its
+  Unicode characters (the weakest absolute reading) AND by Calculate(piece) in the configured unit (lm), so a library that
+  counts characters as bytes must keep pieces within the maximum in bytes, one that counts runes within it in runes - but not
+  one measure for the loop and another for Calculate / Check.  Word / sentence / paragraph maxima stay unbounded as the
+  property says; their metric is still reported and compared across accessors.
+* Accessor agreement (Metrics events, on every probe / sweep / profile text and on its last two pieces): GetSize(text, u) for
+  all five units and Check(text).Metrics equal Calculate(text); IsAboveMax, ExceedsLimit(text, Max) and Check's hard-maximum
+  verdict equal (metric > max); IsBelowMin equals (metric < min).  A disagreement is reported as C13:metric-*:size-accessors.
+* Sweeps: cuts x whole pieces of 10-byte ASCII words, then a last segment of max + d bytes (d in -2..15) of which e in {1,2,3,5}
+  characters are 2, 3 or 4 bytes wide at its head, across the limit position, or at its tail - byte length and character count
+  fall on different sides of the maximum for the whole text and for the remainder after one and two cuts; through SplitToSize,
+  ChunkDocumentWithConfig and (characters) NewChunkerWithConfig().Chunk.  tabula's ChunksWithConfig is not driven here: it needs
+  a PDF and the layout stage re-flows the text, so exact byte windows cannot be placed (not cheap, not covered).
 * Token maxima: the budget is the configured one - a piece holds at most max tokens where tokens = characters div
   (1 / TokensPerChar); the trace carries cpt = 1 / TokensPerChar (10, 4, 2, 1) and the limit position of the probes is
   max x cpt bytes.  The overlap dimension is independent of the size configuration in the code (the overlap generator never
@@ -104,14 +119,22 @@ def _reuse_desc(ev, clause):
 
 
 def _split_desc(ev, clause):
+    if ev["event"] == "Metrics":
+        m = ev["m"]
+        return ("C13:%s:size-accessors" % clause,
+                "SplitterTrace rejects what the size accessors of one SizeCalculator (%s maximum %d) say about one text (%s, %d bytes, "
+                "%d characters), clause %s: Calculate %s, GetSize %s, Check.Metrics %s [characters, tokens, words, sentences, paragraphs]; "
+                "IsAboveMax %s, ExceedsLimit(Max) %s, Check says over the hard maximum %s, IsBelowMin %s"
+                % (ev["unit"], ev["limit"], ev.get("what"), ev.get("bytes"), ev.get("chars"), clause, m["calc"], m["get"], m["check"],
+                   m["above"], m["exceeds"], m["checkOver"], m["below"]))
     if ev["event"] != "Split":
         return _reuse_desc(ev, clause)
     fam = SPLIT_FAMILY.get(ev.get("api"), ev.get("api"))
     sig = "C13:%s:%s" % (clause, fam)
     sizes = [r[1] - r[0] for r in ev["r"]]
-    what = ("SplitterTrace rejects %s with %s maximum %d (clause %s): text = %s%s; pieces at %s (byte lengths %s), valid UTF-8 %s"
+    what = ("SplitterTrace rejects %s with %s maximum %d (clause %s): text = %s%s; pieces at %s (byte lengths %s, characters %s, the library's own metric %s), valid UTF-8 %s"
             % (ev.get("api"), ev["unit"], ev["limit"], clause, _runs_desc(ev["t"]),
-               (" = %r" % ev["text"]) if "text" in ev else "", ev["r"][:8], sizes[:8], ev["valid"][:8]))
+               (" = %r" % ev["text"]) if "text" in ev else "", ev["r"][:8], sizes[:8], ev.get("pc", [])[:8], ev.get("lm", [])[:8], ev["valid"][:8]))
     return sig, what
 
 
@@ -138,7 +161,7 @@ def _collect(results, mode, cases, kind):
             continue
         case = cases[r["case"]] if cases is not None else {"seed_request": r["case"]}
         for e in r.get("events") or []:
-            if (e["event"] == kind or (kind == "Overlap" and e["event"] == "Frame")
+            if (e["event"] == kind or (kind == "Overlap" and e["event"] == "Frame") or (kind == "Split" and e["event"] == "Metrics")
                     or (e["event"] == "Reuse" and (e.get("api") == "SizeCalculator") == (kind == "Split"))):
                 evs.append(e)
                 org.append((mode, case))
@@ -175,7 +198,7 @@ def run(ctx):
           ("OverlapReuse", "OverlapReuse_mc_meta.cfg", {"expect_violation": True})]
     gens = [("SplitterMC", "Splitter_gen_quick.cfg" if q else "Splitter_gen_thorough.cfg"),
             ("SplitterProf", "SplitterProf_gen_quick.cfg" if q else "SplitterProf_gen.cfg"), ("OverlapMC", "OverlapMC_gen.cfg"),
-            ("SplitterProf", "SplitterProf_probe.cfg")]
+            ("SplitterProf", "SplitterProf_probe.cfg"), ("SplitterProf", "SplitterProf_sweep.cfg")]
     with ThreadPoolExecutor(max_workers=5) as ex:
         f1 = [ex.submit(_tlc_retry, ctx, m, c, 300 if q else 3000, workers=1 if kw else 3, count=False, **kw) for m, c, kw in r1]
         fg = [ex.submit(_tlc_retry, ctx, m, c, 300 if q else 3000, workers=1, count=False, collect=True) for m, c in gens]
@@ -184,7 +207,7 @@ def run(ctx):
             if not kw:
                 ctx.states += r["distinct"]
                 ctx.transitions += r["generated"]
-        small, prof, ovl, probes = [f.result()["cases"] for f in fg]
+        small, prof, ovl, probes, sweeps = [f.result()["cases"] for f in fg]
     ctx.exhaustive = True
     if not small or not prof or not ovl:
         raise vlib.MachineryError("TLC emitted no cases")
@@ -193,8 +216,12 @@ def run(ctx):
         raise vlib.MachineryError("TLC emitted no probe cases")
     # every probe (sentence ends placed around the limit position, for every unit x TokensPerChar x maximum) is run;
     # the profiles are sampled
-    prof = probes + rnd.sample(prof, min(nprof, len(prof)))
+    if not sweeps:
+        raise vlib.MachineryError("TLC emitted no sweep cases")
+    nsweep = 1600 if q else len(sweeps)
+    prof = probes + rnd.sample(sweeps, min(nsweep, len(sweeps))) + rnd.sample(prof, min(nprof, len(prof)))
     ctx.extra["cases_probes"] = len(probes)
+    ctx.extra["cases_sweeps"] = min(nsweep, len(sweeps))
     ovl = rnd.sample(ovl, min(novl, len(ovl)))
     ctx.extra.update(cases_small_texts=len(small), cases_profiles=len(prof), cases_overlap=len(ovl))
     ctx.sample({"small_text_case": small[len(small) // 2]})
